@@ -2,6 +2,9 @@
 // Deconvolution::forward; it is emitted verbatim as a method of its own:
 //@region fn=verif_input_view impl=Deconvolution src=forward part="region:/let x = match &x\.data \{/../let x = match &x\.data \{/" sig="(&self, x: &tensor::Tensor) -> Vec<Vec<Vec<f32>>>" tail="x"
 
+// C09: the dropout guard of Deconvolution::forward, emitted verbatim as a method of its own:
+//@region fn=verif_dropout_guard impl=Deconvolution src=forward part="region:/if self\.training \{/../if self\.training \{/" sig="(&self, post: &mut tensor::Tensor)" tail=""
+
 #[cfg(kani)]
 mod harnesses {
     use super::*;
@@ -10,6 +13,37 @@ mod harnesses {
     fn small() -> f32 { let k: i8 = kani::any(); kani::assume(k >= -3 && k <= 4); k as f32 }
     fn random_stub(shape: Shape, _min: f32, _max: f32) -> Tensor {
         match shape { Shape::Triple(c, h, w) => Tensor::triple(vec![vec![vec![1.0; w]; h]; c]), Shape::Single(n) => Tensor::single(vec![1.0; n]), _ => panic!("unsupported in stub") }
+    }
+
+    fn dropout_must_not_run(_t: &mut Tensor, _p: f32) { panic!("Tensor::dropout reached although the layer is not training"); }
+    fn dropout_mark(t: &mut Tensor, _p: f32) { *t = Tensor::single(vec![-7.0]); }
+
+    // @harness c09_guard_deconvolution props=C09 tier=quick kind=bounded flags="--no-overflow-checks" bound="dropout guard region of Deconvolution::forward, layer with dropout 0.5" what="not training => Tensor::dropout unreachable; training => it is applied" timeout=600
+    #[kani::proof]
+    #[kani::unwind(4)]
+    #[kani::stub(crate::tensor::Tensor::random, random_stub)]
+    #[kani::stub(crate::tensor::Tensor::dropout, dropout_must_not_run)]
+    fn c09_guard_deconvolution() {
+        let layer = Deconvolution::create(Shape::Triple(1, 1, 1), 1, &crate::activation::Activation::Linear, (1, 1), (1, 1), (0, 0), Some(0.5));
+        assert!(!layer.training);
+        let mut post = Tensor::single(vec![small()]);
+        layer.verif_dropout_guard(&mut post);
+        kani::cover!(post.get_flat()[0] == 2.0);
+        std::mem::forget(layer);
+    }
+    // @harness c09_guard_deconvolution_on props=C09 tier=thorough kind=bounded flags="--no-overflow-checks" bound="dropout guard region, training = true" what="training => dropout is applied (guard is not dead code)" timeout=600
+    #[kani::proof]
+    #[kani::unwind(4)]
+    #[kani::stub(crate::tensor::Tensor::random, random_stub)]
+    #[kani::stub(crate::tensor::Tensor::dropout, dropout_mark)]
+    fn c09_guard_deconvolution_on() {
+        let mut layer = Deconvolution::create(Shape::Triple(1, 1, 1), 1, &crate::activation::Activation::Linear, (1, 1), (1, 1), (0, 0), Some(0.5));
+        layer.training = true;
+        let mut post = Tensor::single(vec![small()]);
+        layer.verif_dropout_guard(&mut post);
+        assert!(post.get_flat()[0] == -7.0);
+        kani::cover!(true);
+        std::mem::forget(layer);
     }
 
     macro_rules! view_harness {
